@@ -19,7 +19,7 @@
 (***************************************************************************)
 EXTENDS Desugar, Json, IOUtils
 
-CONSTANTS MaxLen, MaxDepth
+CONSTANTS MaxLen, MaxDepth, CheckAll
 
 R == [k |-> "var", sig |-> "", id |-> "r1000"]
 S == [k |-> "var", sig |-> "", id |-> "r1001"]
@@ -111,11 +111,12 @@ ASSUME TLCSet(45, <<>>)
 Init == toks = <<>>
 Next == /\ Len(toks) < MaxLen
         /\ \E x \in Tokens : CanAppend(toks, x) /\ toks' = Append(toks, x)
-        /\ (Complete(toks') /\ Len(toks') > 0) =>
-              TLCSet(45, Append(TLCGet(45), [toks |-> toks', body |-> TreeOf(toks')]))
+        \* every prefix is a program (open blocks close implicitly), so every state is exported
+        /\ TLCSet(45, Append(TLCGet(45), [toks |-> toks', body |-> TreeOf(toks')]))
 Spec == Init /\ [][Next]_toks
 
-DocumentedDesugaringAgrees == Complete(toks) => \A r \in Valuations : AgreeOn(toks, r)
+\* CheckAll = FALSE: the in-model check runs on the programs whose blocks are all closed explicitly (quick)
+DocumentedDesugaringAgrees == (CheckAll \/ Complete(toks)) => \A r \in Valuations : AgreeOn(toks, r)
 
 Post == /\ ndJsonSerialize(IOEnv.OUT, TLCGet(45))
         /\ PrintT(<<"GEN", "Gen_Blocks", Len(TLCGet(45))>>)
